@@ -27,6 +27,7 @@ type Options struct {
 	HarnessDir     string
 	Overlay        map[string][]byte
 	Tier           string
+	ForceQuick     bool // thorough tier fallback: this harness runs at the quick bounds
 	Variant        int // thorough tier: which focus variant of a harness is being explored
 }
 
